@@ -117,7 +117,7 @@ var chkShared = vf.Register("shared_proto", func(k *vf.C, c *SharedCase) error {
 		// (every other background state also has a memory watchdog, whose goroutine lives until the state is closed)
 		var setup func(L *lua.LState, out *e1.GOutcome)
 		if len(src)%2 == 0 {
-			setup = func(L *lua.LState, out *e1.GOutcome) { L.SetMx(1 << 20) // (megabytes: never reached; the watchdog only has to exist) }
+			setup = func(L *lua.LState, out *e1.GOutcome) { L.SetMx(1 << 20) } // (megabytes: never reached; the watchdog only has to exist)
 		}
 		g := e1.RunGopher(src, &e1.GOpts{Budget: 5_000_000, Options: o, Setup: setup})
 		if g.Overrun != "" {
